@@ -597,6 +597,77 @@ class BBNohShock(Obligation):
         return front_jump_cross(self, paths, front_var='r', time_var='t')
 
 
+class GuderleyJumps(Obligation):
+    """Guderley: (i) the initial vector handed to solve_ivp at x = -1 is the strong-shock image of the undisturbed gas,
+    (ii) the jump applied at the reflected shock x = B satisfies the general-strength Rankine-Hugoniot relations; both in the
+    similarity variables (u - D = -(r/(lambda t)) (1 + V), c = -(r/(lambda t)) C, rho = rho0 R)."""
+
+    def __init__(self, n, gamma):
+        from . import guderley_common as G
+        self.G = G
+        self.n, self.gamma = n, gamma
+        self.id = 'C02.guderley.n%d.gamma=%s' % (n, gamma)
+        self.m = H.mod(G.GM)
+        self.modules = [self.m]
+        self.extra_shim = G.shim_extra()
+        self.functions = [self.m.state]
+        self.bounds = 'r, rho0, lambda, B, x >= B symbolic; gamma fixed; the state reaching the reflected shock is an arbitrary (fresh) vector'
+        self.skip_validation = True
+
+    def build(self, mk):
+        if not Mode.symbolic(mk):
+            # replay: the same formulas are a few lines of state(); evaluate them through the real function at a post-reflection
+            # point and read the jump from a profile hook
+            g = float(Fraction(self.gamma))
+            lam = self.m.eexp(self.n, g)
+            B = self.m.get_shock_position(self.n, g, lam)
+            recs = []
+            real = self.m.solve_ivp
+
+            def spy(f, span, y0, **kw):
+                sol = real(f, span, y0, **kw)
+                recs.append((np.array(y0, dtype=float), np.array(sol.y[:, -1], dtype=float)))
+                return sol
+            self.m.solve_ivp = spy
+            try:
+                self.m.state(1.0, abs(float(mk('rho0'))) + 0.1, self.n, g, lam, B, 2.0 * B)
+            finally:
+                self.m.solve_ivp = real
+            pre, post, init = recs[0][1], recs[1][0], recs[0][0]
+        else:
+            from symx.engine import current
+            self.G.run_state(mk, self.n, self.gamma)
+            recs = current().notes.get('ivp', [])
+            if len(recs) < 2:
+                from symx.engine import PathAbort
+                raise PathAbort()          # not the post-reflection branch
+            pre, post, init = recs[0]['y'], recs[1]['y0'], recs[0]['y0']
+        out = {'_g': K(mk, self.gamma)}
+        for i, nm in enumerate(('V', 'C', 'R')):
+            out[nm + '0'], out[nm + '1'], out[nm + 'i'] = pre[i], post[i], init[i]
+        return out
+
+    def domain(self, V):
+        return [T.gt(V('r'), T.ZERO), T.gt(V('rho0'), T.ZERO), T.gt(V('lam'), T.ONE), T.gt(V('B'), T.ZERO), T.ge(V('x'), V('B'))]
+
+    def _rh(self, cx, tag, a, b, g, when=None):
+        (R0, V0, C0), (R1, V1, C1) = a, b
+        w0, w1 = 1 + V0, 1 + V1
+        cx.eq(tag + ' RH mass', R0 * w0, R1 * w1, when=when)
+        cx.eq(tag + ' RH momentum', R0 * w0 * w0 + R0 * C0 * C0 / g, R1 * w1 * w1 + R1 * C1 * C1 / g, when=when)
+        cx.eq(tag + ' RH energy', w0 * w0 / 2 + C0 * C0 / (g - 1), w1 * w1 / 2 + C1 * C1 / (g - 1), when=when)
+
+    def claims(self, cx):
+        g = cx['_g']
+        self._rh(cx, 'converging shock (initial vector at x=-1)', (1, 0, 0), (cx['Ri'], cx['Vi'], cx['Ci']), g)
+        # the radicand of the post-shock sound speed must be non-negative for the formulas to apply
+        ok = None
+        if cx.symbolic:
+            ok = (cx['R0'] > 0) & ((1 + cx['V0']) > 0) & ((1 + cx['V0']) * (1 + cx['V0']) > cx['C0'] * cx['C0']) & \
+                ((cx['C0'] > 0) | (cx['C0'] < 0))          # supersonic inflow relative to the front, non-zero sound speed
+        self._rh(cx, 'reflected shock at x=B', (cx['R0'], cx['V0'], cx['C0']), (cx['R1'], cx['V1'], cx['C1']), g, when=ok)
+
+
 def obligations(tier):
     obs = []
     pairs = R.GAMMA_PAIRS_QUICK if tier == 'quick' else R.GAMMA_PAIRS_FULL
@@ -616,6 +687,9 @@ def obligations(tier):
     obs.append(SDRZFluxes())
     obs.append(MaderCJ())
     obs.append(EHEPFront())
+    for n in (2, 3):
+        for gam in ([Fraction(7, 5), Fraction(3)] if tier == 'quick' else H.G_FULL):
+            obs.append(GuderleyJumps(n, gam))
     for ename in ('ideal_gas_eos', 'stiffened_gas_eos', 'noble_abel_eos', 'carnahan_starling_eos'):
         for m in (0, 1, 2):
             obs.append(BBNohShock(ename, m))
